@@ -34,6 +34,7 @@ type c07Scenario struct {
 	NoVerify bool    `json:"no_verify,omitempty"` // Store.SetNoVerifyDB(true): the plan has no verify_db step
 	Depth    int     `json:"depth"`               // 1 = crash the reap, 2 = also crash every recovery run
 	Torn     bool    `json:"torn"`                // derive images for operations cut in flight
+	SameMs   bool    `json:"same_ms,omitempty"`   // no time passes between the last snapshot and the reap (ids embed the clock in ms)
 	Ops      []c07Op `json:"ops"`
 }
 
@@ -74,6 +75,7 @@ func c07Gen(r *core.Rand, tier string) any {
 	}
 	w := r.Range(1, 6)
 	sc.Ops = c07Shape(olders, fw, incs, w)
+	sc.SameMs = r.Bool(0.15)
 	// sometimes an earlier, uninterrupted reap in the middle of the history
 	if len(sc.Ops) > 2 && r.Bool(0.25) {
 		at := r.Range(2, len(sc.Ops)-1)
@@ -94,6 +96,7 @@ func c07Enumerate(tier string) []any {
 		add(0, 2, []int{2}, false)
 		add(2, 0, nil, false)
 		add(1, 1, []int{1, 1, 2}, true)
+		out = append(out, &c07Scenario{Seed: 1999, Depth: 2, Torn: true, SameMs: true, Ops: c07Shape(1, 2, nil, 3)})
 		return out
 	}
 	var incsets [][]int
@@ -112,6 +115,11 @@ func c07Enumerate(tier string) []any {
 			for _, incs := range incsets {
 				add(olders, fw, incs, (olders+fw+len(incs))%3 == 0)
 			}
+		}
+	}
+	for fw := 0; fw <= 2; fw++ {
+		for n := 0; n <= 1; n++ {
+			out = append(out, &c07Scenario{Seed: uint64(3000 + len(out)), Depth: 2, Torn: true, SameMs: true, Ops: c07Shape(1, fw, []int{1, 2}[:n], 3)})
 		}
 	}
 	return out
@@ -340,7 +348,11 @@ func c07Run(c *core.Ctx, raw json.RawMessage) {
 		c.Res.Trivial = true
 		return
 	}
-	time.Sleep(time.Duration(rng.Range(2, 2000)) * time.Millisecond)
+	if !sc.SameMs {
+		time.Sleep(time.Duration(rng.Range(2, 2000)) * time.Millisecond)
+	} else {
+		c.Probe("reap_in_same_ms_as_last_snapshot")
+	}
 
 	// what the newest snapshot is and resolves to before the reap
 	metas, err := st.List()
@@ -402,8 +414,10 @@ func c07Run(c *core.Ctx, raw json.RawMessage) {
 	var rerr error
 	imgs, rec := en.Record(func() { _, _, rerr = st.Reap() })
 	if rerr != nil {
-		c.Violate("reap-failed", "uninterrupted reap failed: %s", snapsim.Scrub(root, rerr))
-		return
+		// The reap was cut short by its own error: the directory as it is now is one
+		// more interrupted state the next start has to cope with (judged below, last).
+		c.Probe("reap_returned_error")
+		c.Log.Add("reap returned error: %s", snapsim.Scrub(root, rerr))
 	}
 	points := map[string]int{}
 	for _, h := range rec.Hits {
@@ -413,10 +427,22 @@ func c07Run(c *core.Ctx, raw json.RawMessage) {
 	c.ProbeN("crash_between_wals", points["plan.checkpoint.after-wal-move"])
 	c.ProbeN("crash_around_plan_ops", points["plan.execute.before-op"])
 	c.ProbeN("torn_images", len(imgs)-len(rec.Images))
-	// uninterrupted outcome
 	stLive := st
 	st = nil
-	c07Judge(c, stLive, root, tmp, want, "no crash", false, sc.NoVerify)
+	if rerr == nil {
+		// uninterrupted outcome
+		c07Judge(c, stLive, root, tmp, want, "no crash", false, sc.NoVerify)
+	} else {
+		stLive.Close()
+		s2, err := snapsim.OpenStore(root)
+		if err != nil {
+			c.Violate("open-failed", "Reap returned %q and left the store unable to start: next NewStore failed: %s; dir: %s",
+				snapsim.Scrub(root, rerr), snapsim.Scrub(root, err), snapsim.Listing(root))
+			return
+		}
+		s2.SetNoVerifyDB(sc.NoVerify)
+		c07Judge(c, s2, root, tmp, want, "reap returned an error ("+snapsim.Scrub(root, rerr)+")", true, sc.NoVerify)
+	}
 	if c.Failed() {
 		return
 	}
